@@ -12,12 +12,14 @@ import (
 	"net/netip"
 	"os"
 	"path/filepath"
+	"regexp"
 	"runtime"
+	"sort"
 	"strconv"
 	"strings"
-	"sort"
 	"sync"
 	"sync/atomic"
+	"syscall"
 	"testing"
 	"testing/synctest"
 	"time"
@@ -47,13 +49,13 @@ type spRoute struct {
 }
 
 type spStep struct {
-	K   string `json:"k,omitempty"`
-	Ev  string `json:"ev"`
-	Pol string `json:"pol,omitempty"`
-	P  string  `json:"p,omitempty"`
-	X  string  `json:"x,omitempty"`
-	R  spRoute `json:"r,omitempty"`
-	D  int     `json:"d,omitempty"`
+	K   string  `json:"k,omitempty"`
+	Ev  string  `json:"ev"`
+	Pol string  `json:"pol,omitempty"`
+	P   string  `json:"p,omitempty"`
+	X   string  `json:"x,omitempty"`
+	R   spRoute `json:"r,omitempty"`
+	D   int     `json:"d,omitempty"`
 }
 
 type spBehaviour struct {
@@ -67,22 +69,22 @@ var spPrefixes = map[string]string{"x1": "10.1.0.0/24", "x2": "10.1.0.128/25"}
 type spView map[string]any // prefix name -> projected route
 
 type spWorld struct {
-	t     *testing.T
-	ss    *simServer
-	b     *spBehaviour
-	peers map[string]*simPeer
-	pinfo map[string]spPeerInfo
-	views map[string]map[string]map[string]any // peer -> "prefix#id" -> attrs
-	byAddr map[string]string
-	byRid  map[string]string
-	gateMu sync.Mutex
-	gates  map[string]chan struct{} // neighbour address -> gate (closed = open)
+	t           *testing.T
+	ss          *simServer
+	b           *spBehaviour
+	peers       map[string]*simPeer
+	pinfo       map[string]spPeerInfo
+	views       map[string]map[string]map[string]any // peer -> "prefix#id" -> attrs
+	byAddr      map[string]string
+	byRid       map[string]string
+	gateMu      sync.Mutex
+	gates       map[string]chan struct{} // neighbour address -> gate (closed = open)
 	watchCancel context.CancelFunc
-	bestMu     sync.Mutex
-	bestEvents []map[string]any
-	bestTable  map[string]any
-	bestCancel context.CancelFunc
-	srvPeers map[string]*peer
+	bestMu      sync.Mutex
+	bestEvents  []map[string]any
+	bestTable   map[string]any
+	bestCancel  context.CancelFunc
+	srvPeers    map[string]*peer
 }
 
 func spAddr(idx int) string { return fmt.Sprintf("10.0.0.%d", idx+1) }
@@ -682,7 +684,6 @@ func TestVerifC01(t *testing.T) {
 
 var _ = table.GLOBAL_RIB_NAME
 
-
 // ---------------------------------------------------------------------------------------
 // free-running mode: every neighbour and the API client execute their own part of the schedule
 // CONCURRENTLY (no global quiescence between steps). Only the final, settled state is observed;
@@ -769,6 +770,7 @@ func (w *spWorld) chaosOp(st spStep) {
 }
 
 func (w *spWorld) freeStep(st spStep) {
+	spWD.progress.Add(1)
 	switch st.Ev {
 	case "Op":
 		w.chaosOp(st)
@@ -805,14 +807,14 @@ func spRaceReports() int {
 func spRunFree(t *testing.T, tr *vpTrace, tid int, b *spBehaviour, seed int64) {
 	health := map[string]any{"ev": "Health", "races": 0, "leak": false, "deadlock": false, "stuck": 0, "panic": ""}
 	racesBefore := spRaceReports()
-	var rows []map[string]any
+	plan := spFreePlan(b, tid)
+	rows := plan.rows
 	var final map[string]any
+	spWD.begin(tid, rows)
+	defer spWD.end()
 	// written even when the testing package ends this (sub)test with FailNow/Goexit
 	defer func() {
 		health["races"] = spRaceReports() - racesBefore
-		if rows == nil {
-			rows = []map[string]any{{"ev": "Reset", "tid": tid, "peers": b.Peers, "mode": "free"}}
-		}
 		for _, r := range rows {
 			tr.Emit(r)
 		}
@@ -842,6 +844,7 @@ func spRunFree(t *testing.T, tr *vpTrace, tid int, b *spBehaviour, seed int64) {
 			rng := newSplitMix(uint64(seed)*7919 + uint64(tid))
 			var rmu sync.Mutex
 			VerifYieldHook = func(site, peer string) {
+				spWD.progress.Add(1)
 				rmu.Lock()
 				r := rng.next() % 4
 				rmu.Unlock()
@@ -863,50 +866,7 @@ func spRunFree(t *testing.T, tr *vpTrace, tid int, b *spBehaviour, seed int64) {
 			}
 			w.definePolicies()
 			synctest.Wait()
-			// split the schedule per actor
-			actors := map[string][]spStep{}
-			order := append([]string{}, names...)
-			order = append(order, "api", "ops")
-			policy := false
-			chaos := false
-			for _, st := range b.Steps {
-				a := st.P
-				switch st.Ev {
-				case "ApiAdd", "ApiDel", "SetImp", "SetExp", "ResetIn", "ResetOut", "ResetBoth":
-					a = "api"
-				case "UpHold", "Release", "Tick":
-					continue
-				case "Op":
-					a = "ops"
-					chaos = true
-				}
-				if st.Ev == "SetImp" || st.Ev == "SetExp" {
-					policy = true
-				}
-				actors[a] = append(actors[a], st)
-			}
-			rows = append(rows, map[string]any{"ev": "Reset", "tid": tid, "peers": b.Peers, "mode": "free"})
-			for _, a := range order {
-				for _, st := range actors[a] {
-					row := map[string]any{"ev": st.Ev}
-					if st.P != "" {
-						row["p"] = st.P
-					}
-					if st.X != "" {
-						row["x"] = st.X
-					}
-					if st.Ev == "Ann" || st.Ev == "ApiAdd" {
-						row["r"] = st.R
-					}
-					if st.Pol != "" {
-						row["pol"] = st.Pol
-					}
-					if st.K != "" {
-						row["k"] = st.K
-					}
-					rows = append(rows, row)
-				}
-			}
+			actors, order, policy, chaos := plan.actors, plan.order, plan.policy, plan.chaos
 			var running atomic.Int32
 			done := make(chan struct{})
 			var wg sync.WaitGroup
@@ -955,6 +915,71 @@ func spRunFree(t *testing.T, tr *vpTrace, tid int, b *spBehaviour, seed int64) {
 	}()
 }
 
+// spFreePlan splits a schedule per actor (every neighbour, the API client, the operator) and gives the
+// trace rows that describe it; it depends on the schedule only, so that the watchdog can write the rows
+// of a behaviour that never finishes.
+type spFreePlanT struct {
+	actors map[string][]spStep
+	order  []string
+	policy bool
+	chaos  bool
+	rows   []map[string]any
+}
+
+func spFreePlan(b *spBehaviour, tid int) *spFreePlanT {
+	names := make([]string, 0, len(b.Peers))
+	for n := range b.Peers {
+		names = append(names, n)
+	}
+	sort.Strings(names)
+	var rows []map[string]any
+	// split the schedule per actor
+	actors := map[string][]spStep{}
+	order := append([]string{}, names...)
+	order = append(order, "api", "ops")
+	policy := false
+	chaos := false
+	for _, st := range b.Steps {
+		a := st.P
+		switch st.Ev {
+		case "ApiAdd", "ApiDel", "SetImp", "SetExp", "ResetIn", "ResetOut", "ResetBoth":
+			a = "api"
+		case "UpHold", "Release", "Tick":
+			continue
+		case "Op":
+			a = "ops"
+			chaos = true
+		}
+		if st.Ev == "SetImp" || st.Ev == "SetExp" {
+			policy = true
+		}
+		actors[a] = append(actors[a], st)
+	}
+	rows = append(rows, map[string]any{"ev": "Reset", "tid": tid, "peers": b.Peers, "mode": "free"})
+	for _, a := range order {
+		for _, st := range actors[a] {
+			row := map[string]any{"ev": st.Ev}
+			if st.P != "" {
+				row["p"] = st.P
+			}
+			if st.X != "" {
+				row["x"] = st.X
+			}
+			if st.Ev == "Ann" || st.Ev == "ApiAdd" {
+				row["r"] = st.R
+			}
+			if st.Pol != "" {
+				row["pol"] = st.Pol
+			}
+			if st.K != "" {
+				row["k"] = st.K
+			}
+			rows = append(rows, row)
+		}
+	}
+	return &spFreePlanT{actors: actors, order: order, policy: policy, chaos: chaos, rows: rows}
+}
+
 type splitMix struct{ s uint64 }
 
 func newSplitMix(seed uint64) *splitMix { return &splitMix{s: seed} }
@@ -966,9 +991,173 @@ func (r *splitMix) next() uint64 {
 	return z ^ (z >> 31)
 }
 
+// ---------------------------------------------------------------------------------------
+// real-time watchdog for lock deadlocks.
+//
+// Inside the bubble a goroutine blocked on a sync.Mutex / sync.RWMutex is not "durably" blocked: when
+// the speaker's goroutines dead-lock on locks, the bubble neither panics nor advances its clock, the
+// behaviour simply never ends. The watchdog runs outside the bubble on the wall clock. It gives the
+// verdict deadlock=true only when all of the following hold, and otherwise leaves the hang to the
+// test timeout (an inconclusive run, not a verdict):
+//   - the behaviour made no progress (no hook call, no harness step) and the process used next to no
+//     CPU for spWDQuiet of wall time: the process is idle, not slow;
+//   - the goroutine dump shows at least two goroutines of the speaker (non-test gobgp frames) that have
+//     been waiting for a sync lock for a minute or more, at two or more different lock call sites;
+//   - no speaker goroutine sits in a time- or I/O-dependent wait in the middle of an operation
+//     (chan send, sleep, IO wait): such a goroutine may be the lock holder
+//     and would move on when time passes, which the stopped bubble clock cannot show.
+// On a verdict the rows of the behaviour and its Health record are written and the process exits;
+// the behaviours after it are not run (the check accepts the short output only with this record).
+
+const spWDQuiet = 75 * time.Second
+
+type spWatchdog struct {
+	progress atomic.Uint64
+	mu       sync.Mutex
+	active   bool
+	tid      int
+	rows     []map[string]any
+	tr       *vpTrace
+}
+
+var spWD spWatchdog
+
+func (wd *spWatchdog) begin(tid int, rows []map[string]any) {
+	wd.mu.Lock()
+	wd.active, wd.tid, wd.rows = true, tid, rows
+	wd.mu.Unlock()
+	wd.progress.Add(1)
+}
+
+func (wd *spWatchdog) end() {
+	wd.mu.Lock()
+	wd.active = false
+	wd.mu.Unlock()
+	wd.progress.Add(1)
+}
+
+func spCPU() time.Duration {
+	var ru syscall.Rusage
+	if err := syscall.Getrusage(syscall.RUSAGE_SELF, &ru); err != nil {
+		return 0
+	}
+	return time.Duration(ru.Utime.Nano() + ru.Stime.Nano())
+}
+
+var spLockWait = regexp.MustCompile(`^goroutine \d+ [^\[]*\[sync\.(Mutex|RWMutex)\.(Lock|RLock)(?:, (\d+) minutes)?`)
+var spBusyWait = regexp.MustCompile(`^goroutine \d+ [^\[]*\[(chan send|sleep|IO wait)`)
+
+// spJudgeDump reads a full goroutine dump; see the conditions above.
+func spJudgeDump(dump string) (deadlock bool, why string, sites []string) {
+	siteSet := map[string]bool{}
+	waiters := 0
+	for _, g := range strings.Split(dump, "\n\n") {
+		lines := strings.Split(g, "\n")
+		if len(lines) < 2 {
+			continue
+		}
+		// the first frame of the speaker itself (function line followed by its file line)
+		site := ""
+		for i := 1; i+1 < len(lines); i += 2 {
+			if strings.HasPrefix(lines[i], "created by") {
+				break
+			}
+			if strings.Contains(lines[i], "github.com/osrg/gobgp/") && !strings.Contains(lines[i+1], "_test.go") {
+				site = strings.TrimSpace(lines[i+1])
+				if k := strings.Index(site, " +0x"); k > 0 {
+					site = site[:k]
+				}
+				break
+			}
+			if strings.Contains(lines[i+1], "_test.go") {
+				break // reached harness code before any speaker code
+			}
+		}
+		if site == "" {
+			continue
+		}
+		if m := spLockWait.FindStringSubmatch(lines[0]); m != nil {
+			if mins, _ := strconv.Atoi(m[3]); mins >= 1 {
+				waiters++
+				siteSet[site] = true
+			}
+			continue
+		}
+		if spBusyWait.MatchString(lines[0]) {
+			return false, "a speaker goroutine is in a time/IO dependent wait: " + lines[0] + " at " + site, nil
+		}
+	}
+	for k := range siteSet {
+		sites = append(sites, k)
+	}
+	sort.Strings(sites)
+	if waiters < 2 || len(sites) < 2 {
+		return false, fmt.Sprintf("%d lock waiters at %d sites", waiters, len(sites)), sites
+	}
+	return true, "", sites
+}
+
+func (wd *spWatchdog) run(stop <-chan struct{}) {
+	last := wd.progress.Load()
+	lastCPU := spCPU()
+	since := time.Now()
+	collected := false
+	for {
+		select {
+		case <-stop:
+			return
+		case <-time.After(5 * time.Second):
+		}
+		now, cpu := wd.progress.Load(), spCPU()
+		if now != last || cpu-lastCPU > 300*time.Millisecond {
+			last, lastCPU, since, collected = now, cpu, time.Now(), false
+			continue
+		}
+		wd.mu.Lock()
+		active := wd.active
+		wd.mu.Unlock()
+		if !active {
+			continue
+		}
+		if !collected && time.Since(since) >= 10*time.Second {
+			// the wait times shown in a goroutine dump are counted from a garbage collection
+			runtime.GC()
+			collected, lastCPU = true, spCPU()
+			continue
+		}
+		if time.Since(since) < spWDQuiet+10*time.Second {
+			continue
+		}
+		buf := make([]byte, 64<<20)
+		buf = buf[:runtime.Stack(buf, true)]
+		dead, why, sites := spJudgeDump(string(buf))
+		if p := os.Getenv("VERIF_RACELOG"); p != "" {
+			os.WriteFile(p+".hang-dump.txt", buf, 0o644)
+		}
+		if !dead {
+			fmt.Fprintf(os.Stderr, "verif watchdog: behaviour hangs, not judged a lock deadlock (%s)\n", why)
+			since, collected = time.Now(), false // look again later
+			continue
+		}
+		wd.mu.Lock()
+		for _, r := range wd.rows {
+			wd.tr.Emit(r)
+		}
+		wd.tr.Emit(map[string]any{"ev": "Health", "races": 0, "leak": false, "deadlock": true, "stuck": 0,
+			"panic": "lock deadlock (wall-clock watchdog): speaker goroutines wait for locks at " + strings.Join(sites, "; ")})
+		wd.tr.Close()
+		fmt.Fprintf(os.Stderr, "verif watchdog: lock deadlock in behaviour %d: %v\n", wd.tid, sites)
+		os.Exit(3)
+	}
+}
+
 func TestVerifFree(t *testing.T) {
 	tr := vpOpenTrace(t)
 	defer tr.Close()
+	spWD.tr = tr
+	stopWD := make(chan struct{})
+	defer close(stopWD)
+	go spWD.run(stopWD)
 	seed, _ := strconv.ParseInt(os.Getenv("VERIF_SEED"), 10, 64)
 	tid := 0
 	vpReadLines(t, "VERIF_IN", func(line []byte) {
